@@ -17,7 +17,7 @@ use crate::{
                 sub_days, sub_months, sub_years,
             },
         },
-        format::format_part,
+        format::{format_part, unquote_part},
         offset::{add_offset_to_dn, remove_offset_from_dn, try_remove_offset_from_dn},
         parse::{
             parse_format_string, parse_offset, parse_part, ParseUnit, ParsedDate, ParsedTime,
@@ -536,10 +536,7 @@ impl DateTime {
 
                 // Escape parts starting with apostrophe
                 if part.starts_with('\'') {
-                    let part = part.replace('\u{0000}', "'");
-                    return part[1..part.len() - usize::from(part.ends_with('\''))]
-                        .chars()
-                        .collect::<Vec<char>>();
+                    return unquote_part(part).chars().collect::<Vec<char>>();
                 }
 
                 format_part(part, days, nanoseconds, offset_seconds)
